@@ -225,6 +225,9 @@ fn body_step() {
         match STEP_REQ {
             1 => { TS[TS_N] = REQ_TS; TS_N += 1; }   // Suspender::until_with pushes, then yields
             2 => { CANCEL_N += 1; }                    // Suspender::cancel pushes, then yields
+            // a cancel (SIGVTALRM) lands after until_with has pushed its time and before the switch:
+            // both requests are pending at this one yield
+            3 => { TS[TS_N] = REQ_TS; TS_N += 1; CANCEL_N += 1; }
             _ => {}
         }
     }
@@ -277,7 +280,7 @@ fn resume_step(out: u8) {
     let before = any_state();
     co.state.set(before);
     let now: u64 = kani::any();
-    let req: u8 = kani::any(); kani::assume(req <= 2);
+    let req: u8 = kani::any(); kani::assume(req <= 3);
     let ts: u64 = kani::any();
     let enter: bool = kani::any();
     unsafe {
@@ -351,7 +354,7 @@ resume_harness!(c09_requests_stay_with_their_yield, {
     let mut co = mk();
     let before: S = if kani::any() { CoroutineState::Ready } else { CoroutineState::Syscall((), any_name(), any_sub()) };
     co.state.set(before);
-    let req: u8 = kani::any(); kani::assume(req <= 2);
+    let req: u8 = kani::any(); kani::assume(req <= 3);
     let ts: u64 = kani::any();
     let enter: bool = kani::any();
     unsafe {
@@ -368,9 +371,10 @@ resume_harness!(c09_requests_stay_with_their_yield, {
     kani::assert(unsafe { CANCEL_N } == 0, "C09.cancel_request_does_not_outlive_its_yield");
     if let Some(CoroutineState::Suspend(_, t)) = got {
         kani::assert(t == if req == 1 { ts } else { 0 }, "C09.reported_wake_up_time_is_the_requested_one");
-        kani::assert(req != 2, "C09.cancel_request_is_not_reported_as_suspend");
+        kani::assert(req != 2 && req != 3, "C09.cancel_request_is_not_reported_as_suspend");
     }
-    if got == Some(CoroutineState::Cancelled) { kani::assert(req == 2, "C09.cancelled_only_if_requested"); }
+    if got == Some(CoroutineState::Cancelled) { kani::assert(req == 2 || req == 3, "C09.cancelled_only_if_requested"); }
+    kani::cover!(req == 3 && got == Some(CoroutineState::Cancelled), "C09.cover_cancel_lands_during_until");
     kani::cover!(req == 1 && matches!(got, Some(CoroutineState::Syscall(..))), "C09.cover_delay_request_in_syscall_state");
     kani::cover!(req == 0 && got == Some(CoroutineState::Suspend((), 0)), "C09.cover_plain_suspend_time_zero");
     std::mem::forget(co);
